@@ -131,6 +131,7 @@ ToStringClauses(M, s, ic, pure, r, s2, outw) ==
         C01_word   |-> s.chk /\ r.ok,
         C01_text   |-> r.ok,
         C02_final  |-> s.chk /\ pure /\ Accepts(A, s.insw),
+        C03_accepts |-> s.chk /\ pure /\ r.ok /\ s2.ordw = s.insw,
         C12_unique |-> s.chk /\ pure /\ UniqueArr(A, s.insw),
         C06_out    |-> TRUE,
         C16_pure   |-> TRUE,
@@ -144,6 +145,9 @@ ToStringClauses(M, s, ic, pure, r, s2, outw) ==
    C01_word   |-> ante.C01_word => Accepts(A, s2.ordw),
    C01_text   |-> ante.C01_text => outw = s2.ordw,
    C02_final  |-> ante.C02_final => (r.ok /\ s2.ordw = s.insw),
+   \* C03, dynamic side: a child sequence supplied in document order that the class accepts and keeps as supplied
+   \* is a word of the schema's content model (the converse direction is C02_final)
+   C03_accepts |-> ante.C03_accepts => Accepts(A, s.insw),
    C12_unique |-> ante.C12_unique => (r.ok /\ s2.ordw = TheArr(A, s.insw) /\ SameNameStable(s2)),
    C06_out    |-> /\ IsPerm(s2.ord, s2.ins) /\ s2.ins = s.ins
                   /\ \A c \in Range(s.kids) : ParOf(s2, c) = ParOf(s, c),
